@@ -243,3 +243,14 @@ func (r *byteRuneReader) ReadRune() (rune, int, error) {
 	r.i += size
 	return ch, size, nil
 }
+
+func init() {
+	// SELF: reachability twin used by setup (the final assertion is false on
+	// every path that reaches it; the check must report it).
+	setups["SELF"] = func(it *Item) any { return setupRe(it) }
+	runs["SELF"] = func(c any, it *Item) {
+		h := haystack(it, &c.(*reCtx).set)
+		_ = c.(*reCtx).re.Match(h)
+		verif.Assert(false, "SELF reachability twin")
+	}
+}
